@@ -1930,10 +1930,18 @@ func (e *errorWriter) Close() error {
 		if err := compressPool.decompressLimited(uncompressed, body, e.rw.op.decompressLimit()); err != nil {
 			// can't really just return an error; we have to encode the
 			// error into the RPC response, so we populate respMeta.end
-			if e.respMeta.end.httpCode == 0 || e.respMeta.end.httpCode == http.StatusOK {
-				e.respMeta.end.httpCode = http.StatusInternalServerError
+			var limitErr *connect.Error
+			if errors.As(err, &limitErr) && limitErr.Code() == connect.CodeResourceExhausted {
+				// Exceeding the message limit is reported as such, as it is
+				// for an error body that is not compressed.
+				e.respMeta.end.httpCode = httpStatusCodeFromRPC(connect.CodeResourceExhausted)
+				e.respMeta.end.err = limitErr
+			} else {
+				if e.respMeta.end.httpCode == 0 || e.respMeta.end.httpCode == http.StatusOK {
+					e.respMeta.end.httpCode = http.StatusInternalServerError
+				}
+				e.respMeta.end.err = connect.NewError(connect.CodeInternal, fmt.Errorf("failed to decompress body: %w", err))
 			}
-			e.respMeta.end.err = connect.NewError(connect.CodeInternal, fmt.Errorf("failed to decompress body: %w", err))
 			body = nil
 		} else {
 			body = uncompressed
